@@ -215,8 +215,8 @@ def logicCheck (s : State) : Kind → Bool
 def tryAttest (s : State) (att : Att) (kind : Kind) : State :=
   if tally s.oracles (required s.lastTotalPower) att.votes 0 then
     let s1 : State := { s with
-      lastObserved := att.nonce
-      atts := setAtt s.atts { att with observed := true }
+      lastObserved := if observeSetsLastObserved then att.nonce else s.lastObserved   -- SetLastObservedEventNonce, unconditional
+      atts := if observeMarksObserved then setAtt s.atts { att with observed := true } else s.atts
       observedLog := s.observedLog ++ [(att.nonce, att.hash)] }
     let s2 : State := match kind with
       | .pending => { s1 with pending := insertNonce s1.pending att.nonce }   -- SavePendingExecuteClaim
